@@ -167,6 +167,8 @@ def gen_case(rng, cid, kind):
         d = (lambda hi: 0) if tight else (lambda hi: rng.choice([0, 0, rng.randint(1, hi)]))
         writers.append({"open_delay_us": d(2000), "chunks": chunks, "delays_us": [d(1500) for _ in chunks],
                         "close_delay_us": d(1000)})
+    if writers and rng.random() < 0.25:
+        rng.choice(writers)["hold"] = True     # stays open until the stream ended: only the read deadline can end it
     mode = rng.choice(["drain", "cut"])
     return {"id": cid, "kind": kind, "oneshot": oneshot, "mode": mode, "writers": writers,
             "cancel_us": rng.choice([0, rng.randint(0, 300), rng.randint(0, 4000)]),
@@ -198,9 +200,22 @@ def nontrivial(case):
 # running the harness
 # ---------------------------------------------------------------------------
 class Crash(Exception):
+    """The harness process was killed by a Go panic / fatal error raised inside mtail's own code."""
     def __init__(self, stderr, rc):
         Exception.__init__(self, "harness crashed rc=%s" % rc)
         self.stderr, self.rc = stderr, rc
+        i = max(stderr.find("panic:"), 0) if "panic:" in stderr else max(stderr.find("fatal error:"), 0)
+        self.stack = stderr[i:i + 2500]
+        self.send_closed = "send on closed channel" in self.stack
+
+
+def _is_mtail_crash(stderr):
+    """A runtime panic whose running goroutine is inside internal/tailer (not the harness' own code)."""
+    if "panic:" not in stderr and "fatal error:" not in stderr:
+        return False
+    i = stderr.find("panic:") if "panic:" in stderr else stderr.find("fatal error:")
+    first = stderr[i:].split("\n\n")[1] if "\n\n" in stderr[i:] else stderr[i:]
+    return "mtail/internal/tailer/" in first and "mtail/internal/verif/c17.run" not in first.split("created by")[0].split("mtail/internal/tailer/")[0]
 
 
 def _run_proc(ctx, binary, cases, par, deadline, tag):
@@ -230,7 +245,7 @@ def _run_proc(ctx, binary, cases, par, deadline, tag):
         evs.sort(key=lambda e: e["n"])
     crash = None
     if r.returncode != 0:
-        if "send on closed channel" in r.stderr and "logstream" in r.stderr:
+        if r.returncode == 2 and _is_mtail_crash(r.stderr):
             crash = Crash(r.stderr, r.returncode)
         else:
             raise vlib.InfraError("c17 harness exited %d (%s):\n%s" % (r.returncode, tag, r.stderr[-3000:]))
@@ -453,32 +468,51 @@ def brief(recs):
     return [[r["ev"]] + [r[x] for x in ("w", "b", "what") if x in r] for r in recs if r["ev"] not in ("opened", "written")]
 
 
-def handle_crashes(ctx, crashes, events, cases):
-    """A harness process died with `send on closed channel` inside the stream: real-code behaviour.  The
-    unfinished stream-socket traces of that process are the candidates it belongs to."""
+def handle_crashes(ctx, binary, crashes, events, cases):
+    """A harness process died from a panic inside the stream: real-code behaviour.  The unfinished traces
+    of that process are the candidates it belongs to."""
     if not crashes:
         return
-    cands = {k: to_records(e, 1, panic=True) for k, e in events.items()
-             if not complete(e) and e and e[0]["ev"] == "reset" and MODEL_KIND[e[0]["real"]] == "sock"}
+    unfinished = {k: e for k, e in events.items() if not complete(e) and e and e[0]["ev"] == "reset"}
+    sc = [c for c in crashes if c.send_closed]
+    other = [c for c in crashes if not c.send_closed]
     dev = "DEV_HandlerAddedAfterWait"
-    stack = crashes[0].stderr[crashes[0].stderr.find("panic:"):][:1500]
-    if cands and dev in vlib.open_devs(ctx.prop):
-        acc, _ = validate(ctx, cands, on=[dev], label="explain-panic")
-        if acc:
-            k = sorted(acc, key=lambda x: len(cands[x]))[0]
-            ctx.known_finding(dev, "%s; witness of this run: %s" % (
-                vlib.open_finding(ctx.prop, dev).get("what", ""), json.dumps(brief(cands[k]), separators=(",", ":"))))
-            ctx.cov.setdefault("explained_by_open_finding", {})[dev] = len(crashes)
-            return
-    k = sorted(cands, key=lambda x: len(cands[x]))[0] if cands else None
-    ctx.violation({"case": cases.get(k), "trace": cands.get(k), "crash": stack, "crashes_in_this_run": len(crashes)},
-                  "the process died with `panic: send on closed channel` inside the socket stream (a handler sent after "
-                  "close(lines)); spec/ConnStream.tla NoSendAfterClose")
+    if sc:
+        cands = {k: to_records(e, 1, panic=True) for k, e in unfinished.items() if MODEL_KIND[e[0]["real"]] == "sock"}
+        explained = False
+        if cands and dev in vlib.open_devs(ctx.prop):
+            acc, _ = validate(ctx, cands, on=[dev], label="explain-panic")
+            if acc:
+                k = sorted(acc, key=lambda x: len(cands[x]))[0]
+                ctx.known_finding(dev, "%s; witness of this run: %s" % (
+                    vlib.open_finding(ctx.prop, dev).get("what", ""), json.dumps(brief(cands[k]), separators=(",", ":"))))
+                ctx.cov.setdefault("explained_by_open_finding", {})[dev] = len(sc)
+                explained = True
+        if not explained:
+            k = sorted(cands, key=lambda x: len(cands[x]))[0] if cands else None
+            ctx.violation({"case": cases.get(k), "trace": cands.get(k), "crash": sc[0].stack, "crashes_in_this_run": len(sc)},
+                          "the process died with `panic: send on closed channel` inside the socket stream (a handler sent "
+                          "after close(lines)); spec/ConnStream.tla NoSendAfterClose")
+    if other:
+        # any other panic inside internal/tailer: re-execute the cases that were in flight
+        base = [cases[k] for k in sorted(unfinished, key=str) if k in cases][:24]
+        again = [dict(c, id=5000 + i) for i, c in enumerate(base * 12)]
+        crashes2 = []
+        for _ in range(6):
+            if crashes2 or not again:
+                break
+            _ev, crashes2 = run_cases(ctx, binary, again, procs=min(vlib.NCPU, 4), par=6, deadline=10, tag="recrash")
+        if crashes2:
+            ctx.violation({"cases_in_flight": again, "crash": other[0].stack, "crash_on_reexecution": crashes2[0].stack},
+                          "the stream's own code panicked (%s)" % other[0].stack.splitlines()[0])
+        else:
+            raise vlib.InfraError("a harness process died from a panic inside internal/tailer that did not reproduce:\n" + other[0].stack)
 
 
 def run(ctx):
     binary = vlib.build(ctx, "c17")
-    model_stage(ctx)
+    if not os.environ.get("VERIF_C17_SKIP_MODEL"):      # developer switch for mutation experiments only
+        model_stage(ctx)
     rng = random.Random(ctx.seed * 1000003 + 17)
     n = 1200 if ctx.thorough else 260
     deadline = 10
@@ -526,7 +560,7 @@ def run(ctx):
     if not acc:
         raise vlib.InfraError("no trace at all was accepted - harness or trace specification broken")
     selftest(ctx, traces, [k for k in sorted(acc)])
-    handle_crashes(ctx, crashes, events, cases)
+    handle_crashes(ctx, binary, crashes, events, cases)
     rejected = sorted(set(traces) - acc)
     ctx.cov["rejected_by_corrected_design"] = len(rejected)
     classify(ctx, binary, cases, traces, rejected, hw, deadline)
